@@ -87,6 +87,7 @@ type PathResult struct {
 	Decisions   int
 	Alts        [][]Decision
 	PCSample    string
+	DecSample   string
 	Unwound     string
 }
 
